@@ -4,8 +4,9 @@ property C08.  Written once against `Num` (`Float` in the driver, `Rat` in the t
 
 What is modelled (file : function):
 
-* `model/core.rs : minimize / maximize`                       — `entry`: router first, on the model AS
-  POSTED (deferred ASTs are not materialised yet); `maximize` whose router declines calls
+* `model/core.rs : minimize / maximize`                       — `entry`: `ModelValidator::validate`
+  first (fix 87f7dea), then the router on the model AS POSTED — unless deferred ASTs are waiting to
+  be lowered, in which case `try_optimization_*` declines (fix c9cb80d); `maximize` whose router declines calls
   `minimize(objective.opposite())`, which asks the router AGAIN — with a view whose underlying
   variable is the same, so the second attempt MINIMISES the variable.
 * `optimization/model_integration.rs : try_minimize / try_maximize / extract_simple_variable /
@@ -273,19 +274,14 @@ def classify (vars : List (FVar α)) : PType :=
   let ni := (vars.filter (fun v => !isFlt v)).length
   if nf = 0 then .pureInt else if ni = 0 then .pureFloat else .mixed
 
-/-- indices of the float variables -/
-def floatIdx : Nat → List (FVar α) → List Nat
-  | _, [] => []
-  | i, v :: rest => if isFlt v then i :: floatIdx (i + 1) rest else floatIdx (i + 1) rest
-
-/-- `extract_simple_variable` -/
+/-- `extract_simple_variable` for an objective that IS a variable (`get_underlying_var_raw() =
+Some(obj)`): that variable if it is a float variable.  The "only float variable of the model"
+fallback applies to objectives without an underlying variable only (fix 9b99c03), which the
+entry points modelled here never pass. -/
 def extractSimple (vars : List (FVar α)) (obj : Nat) : Option Nat :=
   match vars[obj]? with
   | some (.flt _) => some obj
-  | _ =>
-    match floatIdx 0 vars with
-    | [i] => some i
-    | _ => none
+  | _ => none
 
 /-- `has_complex_constraints` -/
 def hasComplex (vars : List (FVar α)) : Bool :=
@@ -337,14 +333,31 @@ def route (m : OModel α) (pbs : List (Option (α × α))) (isMax : Bool) (obj :
     | .mixed => hybrid m.vars
     | _ => .declined .complexObjective
 
-/-- which path answers `Model::minimize` / `Model::maximize` -/
+/-- which path answers `Model::minimize` / `Model::maximize` (`invalid` = `Err` of the validator) -/
 inductive Path (α : Type) where
   | fast (sol : List (FVal α))
   | search
   | panic
+  | invalid
+
+/-- `ModelValidator::validate_variable_domains` (the constraint checks of the validator cannot
+fail on the constraint kinds of a model description) -/
+def validVar : FVar α → Bool
+  | .flt iv => !(gt iv.min iv.max) && !(isInf iv.min || isInf iv.max) && !(isNaN iv.min || isNaN iv.max)
+  | .int d => !d.isEmpty
+
+def Post.isPend : Post α → Bool
+  | .pend .. => true
+  | _ => false
+
+/-- `!self.pending_constraint_asts.is_empty()` -/
+def OModel.hasPending (m : OModel α) : Bool := m.posts.any Post.isPend
 
 /-- `Model::minimize` / `Model::maximize` up to the point where search starts -/
 def entry (m : OModel α) (pbs : List (Option (α × α))) (isMax : Bool) (obj : Nat) : Path α :=
+  if !m.vars.all validVar then .invalid
+  else if m.hasPending then .search
+  else
   match route m pbs isMax obj with
   | .fast s => .fast s
   | .panic => .panic
@@ -509,15 +522,15 @@ def LRow.std (r : LRow α) : List (List α × α) :=
   | .eq => [(r.cs, r.rhs), (r.cs.map (fun c => -c), -r.rhs)]
 
 /-- one row of `A` and its right-hand side: a constant variable moves `coeff * lower` to the
-right-hand side, a decision variable gets `row[lp_idx] = coeff` — an ASSIGNMENT, so of a variable
-that occurs twice in the constraint only the last coefficient survives -/
+right-hand side, a decision variable gets `row[lp_idx] += coeff` (fix 02fabc4: the coefficients of
+a variable that occurs twice add up) -/
 def buildRow (vars : List (FVar α)) (cols : List Nat) : List Nat → List α → List α × α → List α × α
   | x :: xs, coeff :: cs, (row, rhs) =>
     let v := vars.getD x (.int [0])
     if isConst v then buildRow vars cols xs cs (row, rhs - coeff * (boundsOf v).1)
     else
       let i := cols.findIdx (fun y => decide (y = x))
-      buildRow vars cols xs cs (if i < cols.length then row.set i coeff else row, rhs)
+      buildRow vars cols xs cs (if i < cols.length then row.set i (row.getD i zero + coeff) else row, rhs)
   | _, _, acc => acc
 
 /-- `LpProblem` as built by `LinearConstraintSystem::to_lp_problem` -/
